@@ -464,11 +464,17 @@ func runC07(c *Ctx) {
 				c.Count("req.newrepo")
 			case k < 7:
 				u := ms.pick(r)
+				if u == "" {
+					continue // an empty uuid in the URL path never reaches a DVID handler (the router answers 404)
+				}
 				op = "mgr.commit " + hs(u)
 				resp = PostJSON("node/"+ms.realOf(u)+"/commit", map[string]string{"note": "n"})
 				c.Count("req.commit")
 			case k < 11:
 				u := ms.pick(r)
+				if u == "" {
+					continue
+				}
 				a := "none"
 				body := map[string]string{"note": "n"}
 				if r.Chance(0.3) {
@@ -489,6 +495,9 @@ func runC07(c *Ctx) {
 				c.Count("req.newversion")
 			case k < 14:
 				u := ms.pick(r)
+				if u == "" {
+					continue
+				}
 				b := branchPool[r.Intn(len(branchPool))]
 				a := "none"
 				body := map[string]string{"note": "n", "branch": b}
@@ -510,6 +519,9 @@ func runC07(c *Ctx) {
 				c.Count("req.branch")
 			case k < 16:
 				u := ms.pick(r)
+				if u == "" {
+					continue
+				}
 				t := tagPool[r.Intn(len(tagPool))]
 				if r.Chance(0.25) && len(ms.known) > 0 { // a tag that is the uuid of an existing node
 					t = ms.known[r.Intn(len(ms.known))]
